@@ -170,6 +170,16 @@ def run(ctx):
     if len(reach) < 1000:
         rpn.violate("<reach>", "only %d functions reachable from the parse entry points (1383 on the pinned tree): call graph lost its anchors" % len(reach))
     rpn.require(14, "sites")
+    # the unchecked slices of the Span input rest on Span's invariant (start <= end <= len, both on character boundaries), which
+    # only the safe constructors establish: Span::new / Span::get / Position::new / Position::span must validate what pest's
+    # validate (seed C09-8: Span::get checked its range against the whole string, not the span's text)
+    from . import c12_c13
+    rsv = ctx.rule("R09-SPANS", "the safe constructors of Span and Position are pest's (sibling normal-form equality): every Span handed to the "
+                                "parser satisfies the invariant the unchecked slices rely on")
+    c12_c13.compare_pairs(ctx, rsv, facts.load("core"), ["span::Span::<'i>::new", "span::Span::<'i>::get", "position::Position::<'i>::new",
+                                                          "position::Position::<'i>::span", "span::Span::<'i>::new_unchecked",
+                                                          "position::Position::<'i>::new_unchecked"])
+    rsv.require(6, "constructors")
     ctx.assume("panic-freedom as such is not decided: the discharge reasons are reviewed arguments (tables/*.json), several rest on the "
                "cursor invariant (char boundary, within start..end) which follows from the R09-UNSAFE entries only informally")
     ctx.assume("calls into pest, core, alloc, unicode-width are trusted not to panic on valid arguments")
